@@ -263,6 +263,17 @@ func (a *align) Clear() {
 	a.length = -1
 }
 
+// FilterLength removes sequences whose length is <minlength or >maxlength
+// If no sequence remains, the alignment has no length anymore (as after Clear),
+// and the next added sequence defines it
+func (a *align) FilterLength(minlength, maxlength int) (err error) {
+	err = a.seqbag.FilterLength(minlength, maxlength)
+	if a.NbSequences() == 0 {
+		a.length = -1
+	}
+	return
+}
+
 // Length returns the current length of the alignment
 func (a *align) Length() int {
 	return a.length
